@@ -49,6 +49,8 @@ KIND_RULES = [
     (re.compile(r'^precondition not met: index in bounds'), 'index'),
     (re.compile(r'^precondition not met'), 'precondition'),
     (re.compile(r'^postcondition not satisfied'), 'postcondition'),
+    (re.compile(r'^unable to prove post-?condition of closure'), 'postcondition'),
+    (re.compile(r'^unable to prove pre-?condition of closure'), 'precondition'),
     (re.compile(r'^precondition not satisfied'), 'precondition'),
     (re.compile(r'^assertion failed'), 'assertion'),
     (re.compile(r'^possible arithmetic underflow/overflow'), 'arithmetic-overflow'),
